@@ -70,23 +70,24 @@ class VerusResult:
         self.other_diags = []
 
 
-def extern_flags(names):
+def extern_flags(names, deps=None):
+    deps = deps or DEPS
     fl = []
     for n in names:
-        c = glob.glob(os.path.join(DEPS, 'lib%s-*.rlib' % n))
+        c = glob.glob(os.path.join(deps, 'lib%s-*.rlib' % n))
         if not c:
             raise RuntimeError('dependency rlib %s not built (run /verif/bin/setup)' % n)
         fl += ['--extern', '%s=%s' % (n, sorted(c)[0])]
-    fl += ['-L', 'dependency=' + DEPS]
+    fl += ['-L', 'dependency=' + deps]
     return fl
 
 
-def run(gen, gen_path, externs, extra_flags=(), timeout=1500, verify_fn=None, expand=False, rlimit=None):
+def run(gen, gen_path, externs, extra_flags=(), timeout=1500, verify_fn=None, expand=False, rlimit=None, deps=None):
     res = VerusResult()
     res.gen_path = gen_path
     os.makedirs(os.path.dirname(gen_path), exist_ok=True)
     open(gen_path, 'w').write(gen.text)
-    cmd = ['verus', gen_path, '--crate-name', 'unit'] + extern_flags(externs) + [
+    cmd = ['verus', gen_path, '--crate-name', 'unit'] + extern_flags(externs, deps) + [
         '--output-json', '--time-expanded', '--error-format=json', '--multiple-errors', '2']
     if rlimit:
         cmd += ['--rlimit', str(rlimit)]
